@@ -10,8 +10,8 @@ CONSTANTS
     UseIndex = FALSE
     Granular = FALSE
     SyncOnRotate = TRUE
-    CleanupRule = "min_live"
-    HeaderCheck = "strict"
+    CleanupRule = "no_cursors"
+    HeaderCheck = "lenient"
     CommitChoices = {"SetB", "SetS", "Del"}
     CursorKinds = {"range"}
     MaxCommits = 3
@@ -26,5 +26,5 @@ INIT MCInit
 NEXT MCNext
 CONSTRAINT StepBound
 VIEW View
-INVARIANTS LiveReachable IndexReachable LiveDurable ReadsIntact LatestIntact CursorIntact HistNowIntact ActiveInDir HandlesInDir OldestExact
+INVARIANTS LiveReachable IndexReachable LiveDurable ReadsIntact LatestIntact CursorIntact HistCursorIntact HistNowIntact Reopens ActiveInDir HandlesInDir OldestExact
 CHECK_DEADLOCK FALSE
